@@ -121,6 +121,18 @@ def main():
             sio.save_slp(lab, one, embed="user")
             plain["data_config"]["train_labels_path"] = one
             plain["data_config"]["val_labels_path"] = one
+        if job.get("media"):
+            # labels that REFER to a video file (the usual project layout) instead of carrying embedded frames
+            import sleap_io as sio
+            lab = sio.load_slp(plain["data_config"]["train_labels_path"])
+            vid = sio.load_video(os.path.join(repo, "tests/assets/centered_pair_small.mp4"))
+            for lf in lab:
+                lf.video = vid
+            lab.videos = [vid]
+            ref = os.path.join(work, "refers_to_video.slp")
+            sio.save_slp(lab, ref, embed=False)
+            plain["data_config"]["train_labels_path"] = ref
+            plain["data_config"]["val_labels_path"] = ref
         if job.get("test"):
             plain["data_config"]["test_file_path"] = plain["data_config"]["val_labels_path"]
         if job.get("lean") and not job["structured"]:
